@@ -310,6 +310,7 @@ class Interp:
         self.writes = []  # frame log: (owner tag, description)
         self.task_name = ""
         self.call_depth = 0
+        self.replaying = False  # True while a contract's spec is evaluated on a concrete input (replay of a counter-model)
         self.choice = None  # relational contracts: the body's actual choices (verification task) or None (call site)
         self.claim_label = ""
         from . import models
